@@ -220,7 +220,7 @@ class BitStringEncoder(AbstractItemEncoder):
         while stop < valueLength:
             start = stop
             stop = min(start + maxChunkSize * 8, valueLength)
-            substrate += encodeFun(alignedValue[start:stop], asn1Spec, **options)
+            substrate += encodeFun(alignedValue[start:stop], **options)
 
         return substrate, True, True
 
